@@ -221,15 +221,19 @@ def h_headers(n1: int, n2: int, n3: int, nv: int, a: int, b: int, c: int, d: int
     return ok
 
 
-def h_coll_buffer(bufsize: int, n1: int, n2: int, a: int, b: int, c: int, d: int, e: int, f: int, through_collection: bool) -> bool:
+COLLKEYS = [("a", "b"), ("", "b"), ("a", ""), ("kkk", "\u00e9")]     # incl. the empty key and a non-ASCII key
+
+
+def h_coll_buffer(bufsize: int, ksel: int, n1: int, n2: int, a: int, b: int, c: int, d: int, e: int, f: int, through_collection: bool) -> bool:
     """
     Collection / backend level with a symbolic buffer size (covers default -1, 0, small, large in one variable):
     inside the writing session every listed key is readable with its value; afterwards a fresh handle reads both.
-    pre: -1 <= bufsize <= 200
+    pre: -1 <= bufsize <= 200 and 0 <= ksel < len(COLLKEYS)
     pre: 0 <= n1 <= 3 and 0 <= n2 <= 3 and isbyte(a, b, c, d, e, f)
     post: _
     """
     v1, v2 = mkb(n1, a, b, c), mkb(n2, d, e, f)
+    ka, kb = COLLKEYS[ksel]
     p = new_path()
     if through_collection:
         c = Collection(p, UkvCollectionBackend, readonly=False, bufsize=bufsize)
@@ -238,18 +242,18 @@ def h_coll_buffer(bufsize: int, n1: int, n2: int, a: int, b: int, c: int, d: int
     put = (lambda k, v: c.__setitem__(k, v)) if through_collection else c.put
     get = (lambda k: c[k]) if through_collection else c.get
     with c.writing():
-        put("a", v1)
-        if not same_elems(list(c.keys()), ["a"]) or get("a") != v1:
+        put(ka, v1)
+        if not same_elems(list(c.keys()), [ka]) or get(ka) != v1:
             return False
-        put("b", v2)
-        if not same_elems(list(c.keys()), ["a", "b"]):
+        put(kb, v2)
+        if not same_elems(list(c.keys()), [ka, kb]):
             return False
         for k in list(c.keys()):
-            if get(k) != (v1 if k == "a" else v2):
+            if get(k) != (v1 if k == ka else v2):
                 return False
     d = Collection(p, UkvCollectionBackend, readonly=True)
     with d.reading():
-        ok = same_elems(list(d.keys()), ["a", "b"]) and d["a"] == v1 and d["b"] == v2
+        ok = same_elems(list(d.keys()), [ka, kb]) and d[ka] == v1 and d[kb] == v2
     return ok
 
 
